@@ -100,6 +100,9 @@ reg = {
         "tableverify": {"overlay": "units/tableverify.ovl", "canaries": ["canary_tableverify"],
                         "helpers": ["clone", "get_page", "new", "verify_checksum", "fixed_width", "fixed_width_with", "next", "parse_subtree_roots", "value", "range", "hint"]},
         # the release of a deleted table's pages (fragment of TableTreeMut::delete_table)
+        "restorequeue": {"overlay": "units/restorequeue.ovl", "canaries": ["canary_restorequeue"],
+                         "helpers": ["lock", "from", "get_transaction_id", "ignore", "reset", "uncommitted", "free", "page_allocator", "len", "get", "value", "next", "range", "open_system_table",
+                                     "is_allocated", "unpersisted_allocations_after"]},
         "txepilogue": {"overlay": "units/txepilogue.ovl", "canaries": ["canary_txepilogue"],
                        "helpers": ["lock", "drop", "ignore", "commit", "non_durable_commit", "record_unpersisted_allocations", "get_last_durable_transaction_id", "free_if_unpersisted",
                                    "clear_pending_non_durable_commits", "register_non_durable_commit", "take_allocated_since_commit", "free", "drain", "next", "page_allocator"]},
@@ -336,13 +339,14 @@ P["C06"] = {
               {"unit": "tabledel", "functions": ["TableTreeMut::delete_table_core"]},
               {"unit": "mmremove", "functions": ["MultimapTable::write_back_subtree"]},
               {"unit": "restore", "functions": ["WriteTransaction::purge_freed_after"]},
+              {"unit": "restorequeue", "functions": ["WriteTransaction::queue_unreachable", "TableTreeMut::page_allocator", "ValueGuard::value", "Mutex::lock"]},
               {"unit": "txepilogue", "functions": ["WriteTransaction::durable_commit_point", "WriteTransaction::non_durable_commit_point", "WriteTransaction::page_allocator", "Mutex::lock"]},
               {"unit": "cow", "functions": ["MutateHelper::replace_branch_child", "MutateHelper::conditional_free", "MutateHelper::apply_subtree_result",
                                             "MutateHelper::rebuild_partial_leaf_child", "MutateHelper::finalize_branch_builder"]}],
     "kani": [K["C06-K1"], K["C06-K2"], alias("C10-F6a", "C06-K1b")],
     "native": [dict(NATIVE["X-unp3"], id="C06-X-unp3"), dict(NATIVE["X-unp4"], id="C06-X-unp4"), dict(NATIVE["X-pins3"], id="C06-X-pins3"), dict(NATIVE["X-pins4"], id="C06-X-pins4")],
     "explanation": "Kernel: no block is handed out twice (alloc returns a subset of the free set and removes exactly it - shared with C14); freed-page records are keyed (transaction, page) lexicographically so the reclaimer's range ..(free_until, 0) can never contain a record of a transaction >= free_until; the page-list record returns what was stored; the REAL free_if_unpersisted releases a page at once only when it is in the unpersisted set (allocated by a non-durable commit, so no durable root names it), removes it from that set together with the release, and otherwise changes nothing; when the mutator replaces a branch page by a copy (fragments of MutateHelper::apply_child_deletion_result: the proper-subtree case and the rebuild of an under-full leaf beside a single huge value) the original page is handed to conditional_free exactly once, and when the branch was updated in place nothing is released; the REAL MutateHelper::replace_branch_child never writes to a page this transaction did not allocate (a committed page, which a reader or a savepoint may still see, is copied instead); the REAL PageAllocator::conditional_free / free_if_uncommitted release a page at once only when this transaction allocated it since its last commit (no committed root can name it) and otherwise queue it, exactly once, for the commit without touching the allocator; free_helper (whole function) makes exactly the block's pages free in its region and touches neither the header, nor another region, nor the storage; the REAL write-back of a multimap value subtree (fragment of MultimapTable::remove) offers the leaf it folds back inline for release exactly once, against the table's own allocation record (so a page of this transaction leaves the record that a savepoint restore frees from) and only after the outer tree stopped pointing at it; a failure releases nothing; the REAL commit points (unit txepilogue): the system-tree pages a durable commit replaced are released only after the page store accepted the commit, each once, in order, outside any allocation record, and the queue is left empty; a failed commit releases nothing and keeps the per-transaction allocation record.",
-    "assumptions": ["E1 (txepilogue unit): the page store, the tracker and the allocator handle log what reaches them (TransactionalMemory::commit / non_durable_commit / free_if_unpersisted are verified on the real code in unit alloc); a failing page-store call changes nothing; the allocator handle is a field of the transaction model (rule RX); Vec::drain(..) hands out every element in order and leaves the queue empty (model iterator, rule R18); the parameters of the wrappers are what the dropped first halves of the two functions compute (roots, the queue of replaced system-tree pages, the set-aside unpersisted pages - distinct and unpersisted)", "M3 (mmremove unit): see C09 - conditional_free logs the page and the identity of the allocation record it was offered against; the outer tree is a log"],
+    "assumptions": ["Q1 (restorequeue unit): the allocation record hands out every recorded page once (reset) and its pages are distinct, allocated and uncommitted (established by PageAllocator::allocate); the allocator handle logs releases; DATA_ALLOCATED_TABLE.range(lower..) yields the page lists of the records at or above `lower` in key order (uninterpreted function of the table and the bound; key order: complete Kani proof C15-F-txn_with_pagination); unpersisted_allocations_after(t) is an uninterpreted function of the page store and t (its meaning - exactly the allocations of later transactions - is the bounded native check X-unp); one-thread Mutex model", "E1 (txepilogue unit): the page store, the tracker and the allocator handle log what reaches them (TransactionalMemory::commit / non_durable_commit / free_if_unpersisted are verified on the real code in unit alloc); a failing page-store call changes nothing; the allocator handle is a field of the transaction model (rule RX); Vec::drain(..) hands out every element in order and leaves the queue empty (model iterator, rule R18); the parameters of the wrappers are what the dropped first halves of the two functions compute (roots, the queue of replaced system-tree pages, the set-aside unpersisted pages - distinct and unpersisted)", "M3 (mmremove unit): see C09 - conditional_free logs the page and the identity of the allocation record it was offered against; the outer tree is a log"],
     "not_decided": "the accounting equation over histories, readers and savepoints; conditional_free; the in-memory bookkeeping only BOUNDED (native, never counted as proved): UnpersistedState (allocations_after(t) returns exactly the allocations of later transactions, claim drops page and record together, data_freed_in_range / drop_data_freed_after bounds) and the TransactionTracker pin counts that define the oldest live reader",
 }
 P["C07"] = {
@@ -351,11 +355,12 @@ P["C07"] = {
     "verus": [{"unit": "txcommit", "functions": ["WriteTransaction::commit_inner_helper", "WriteTransaction::abort_inner", "Mutex::lock"]},
               {"unit": "allocrec", "functions": ["WriteTransaction::write_allocation_records", "Mutex::lock"]},
               {"unit": "restore", "functions": ["WriteTransaction::purge_freed_after"]},
+              {"unit": "restorequeue", "functions": ["WriteTransaction::queue_unreachable", "TableTreeMut::page_allocator", "ValueGuard::value", "Mutex::lock"]},
               {"unit": "txepilogue", "functions": ["WriteTransaction::durable_commit_point", "WriteTransaction::non_durable_commit_point", "WriteTransaction::page_allocator", "Mutex::lock"]}],
-    "assumptions": ["E1 (txepilogue unit): the page store, the tracker and the allocator handle log what reaches them (TransactionalMemory::commit / non_durable_commit / free_if_unpersisted are verified on the real code in unit alloc); a failing page-store call changes nothing; the allocator handle is a field of the transaction model (rule RX); Vec::drain(..) hands out every element in order and leaves the queue empty (model iterator, rule R18); the parameters of the wrappers are what the dropped first halves of the two functions compute (roots, the queue of replaced system-tree pages, the set-aside unpersisted pages - distinct and unpersisted)", "P1 (restore unit): DATA_FREED_TABLE is the set of its record keys ordered by (transaction id, pagination id) (codec order: complete Kani proof C15-F-txn_with_pagination); extract_from_if(lower.., keep everything) removes exactly the keys at or above `lower`; rule RX turns the closure `|_, _| true` into a unit value", "A1 (allocrec unit): DATA_ALLOCATED_TABLE is the log of (transaction, pages) records written to it (write_allocated_pages_entry appends one; its chunking into page lists is the bounded Kani harness C06-K2), the in-memory records are a sequence yielded in key order (rule R18)", "X1 (txcommit unit): every callee of commit_inner_helper appends its step to a ghost log and leaves the transaction's configuration alone; durable_commit applies the savepoint bookkeeping itself after its commit point; both commit callees leave the freed-page lists empty on success (what the final assertions of the real function check at run time); one-thread Mutex model"],
+    "assumptions": ["Q1 (restorequeue unit): the allocation record hands out every recorded page once (reset) and its pages are distinct, allocated and uncommitted (established by PageAllocator::allocate); the allocator handle logs releases; DATA_ALLOCATED_TABLE.range(lower..) yields the page lists of the records at or above `lower` in key order (uninterpreted function of the table and the bound; key order: complete Kani proof C15-F-txn_with_pagination); unpersisted_allocations_after(t) is an uninterpreted function of the page store and t (its meaning - exactly the allocations of later transactions - is the bounded native check X-unp); one-thread Mutex model", "E1 (txepilogue unit): the page store, the tracker and the allocator handle log what reaches them (TransactionalMemory::commit / non_durable_commit / free_if_unpersisted are verified on the real code in unit alloc); a failing page-store call changes nothing; the allocator handle is a field of the transaction model (rule RX); Vec::drain(..) hands out every element in order and leaves the queue empty (model iterator, rule R18); the parameters of the wrappers are what the dropped first halves of the two functions compute (roots, the queue of replaced system-tree pages, the set-aside unpersisted pages - distinct and unpersisted)", "P1 (restore unit): DATA_FREED_TABLE is the set of its record keys ordered by (transaction id, pagination id) (codec order: complete Kani proof C15-F-txn_with_pagination); extract_from_if(lower.., keep everything) removes exactly the keys at or above `lower`; rule RX turns the closure `|_, _| true` into a unit value", "A1 (allocrec unit): DATA_ALLOCATED_TABLE is the log of (transaction, pages) records written to it (write_allocated_pages_entry appends one; its chunking into page lists is the bounded Kani harness C06-K2), the in-memory records are a sequence yielded in key order (rule R18)", "X1 (txcommit unit): every callee of commit_inner_helper appends its step to a ghost log and leaves the transaction's configuration alone; durable_commit applies the savepoint bookkeeping itself after its commit point; both commit callees leave the freed-page lists empty on success (what the final assertions of the real function check at run time); one-thread Mutex model"],
     "native": [dict(NATIVE["X-pins3"], id="C07-X-pins3"), dict(NATIVE["X-pins4"], id="C07-X-pins4"), dict(NATIVE["X-unp3"], id="C07-X-unp3"), dict(NATIVE["X-spstate"], id="C07-X-spstate")],
-    "explanation": "Kernel: (E) the REAL commit points of WriteTransaction (fragments of durable_commit and non_durable_commit): a non-durable commit hands the page store exactly the pages this transaction allocated, records the data-tree allocations under its own id (what a later savepoint restore frees), registers itself against the last durable commit - flagged when a freed-page record was stored - and only then releases the pages it set aside; a refused commit records, registers and releases nothing; a durable commit marks pending non-durable commits as persisted only after the page store accepted the commit; (V) the REAL WriteTransaction::commit_inner_helper: an acknowledged commit has applied the savepoint bookkeeping (deleted savepoints released, restored-over ones invalidated) as its LAST step, after the durable or non-durable commit it depends on; after a savepoint restore the freed-page records of the rolled-back commits are dropped FIRST; a non-durable commit keeps its freed-page records in memory under its own id and adopts nothing, a durable one writes them out; (P) step 1a of the REAL restore_savepoint_inner: exactly the freed-page records of the transactions AFTER the savepoint's transaction are purged; those of the savepoint's own transaction (pages it freed that an older reader may still see) and of earlier ones stay; (A) the REAL writing of the allocation records at a durable commit (fragment of flush_data_allocated_pages): the records earlier non-durable commits kept in memory are written out each under its OWN transaction id, in order, followed by this transaction's pages under this transaction's id - nothing else, nothing missing. (K) the persistent-savepoint record round trip (id, transaction id, user root) and its byte layout, for every id and every root header. BOUNDED (native): the savepoint bookkeeping of the real TransactionTracker - every registered savepoint holds exactly one pin on its transaction until it is deallocated, invalidation keeps the pins, oldest_savepoint_excluding / list_savepoints_after / any_*_savepoint_exists agree with the set of valid savepoints; the transaction-local SavepointTransactionState: a commit releases the pins of deleted savepoints and invalidates restored-over ones without touching their pins, an abort releases exactly the savepoints created in the transaction, both leave the local state empty.",
-    "not_decided": "restore semantics (restore_savepoint_inner), histories, crash; malformed-record error returns; the tracker and the unpersisted allocation records beyond the stated call-sequence bound",
+    "explanation": "Kernel: (Q) step 2 of the REAL restore_savepoint_inner (fragment): a restore releases at once, each once, every page this transaction itself allocated so far and empties its allocation record (the two debug assertions of that loop are proved from the record's invariant), REPLACES the queue of pages to free at commit - what this transaction had freed is live again - by exactly the durable allocation records from (savepoint transaction + 1, 0) on, in key order, followed by the in-memory allocation records of the non-durable commits after the savepoint's transaction: nothing allocated by the savepoint's own transaction or an earlier one is queued, nothing allocated later is forgotten; (E) the REAL commit points of WriteTransaction (fragments of durable_commit and non_durable_commit): a non-durable commit hands the page store exactly the pages this transaction allocated, records the data-tree allocations under its own id (what a later savepoint restore frees), registers itself against the last durable commit - flagged when a freed-page record was stored - and only then releases the pages it set aside; a refused commit records, registers and releases nothing; a durable commit marks pending non-durable commits as persisted only after the page store accepted the commit; (V) the REAL WriteTransaction::commit_inner_helper: an acknowledged commit has applied the savepoint bookkeeping (deleted savepoints released, restored-over ones invalidated) as its LAST step, after the durable or non-durable commit it depends on; after a savepoint restore the freed-page records of the rolled-back commits are dropped FIRST; a non-durable commit keeps its freed-page records in memory under its own id and adopts nothing, a durable one writes them out; (P) step 1a of the REAL restore_savepoint_inner: exactly the freed-page records of the transactions AFTER the savepoint's transaction are purged; those of the savepoint's own transaction (pages it freed that an older reader may still see) and of earlier ones stay; (A) the REAL writing of the allocation records at a durable commit (fragment of flush_data_allocated_pages): the records earlier non-durable commits kept in memory are written out each under its OWN transaction id, in order, followed by this transaction's pages under this transaction's id - nothing else, nothing missing. (K) the persistent-savepoint record round trip (id, transaction id, user root) and its byte layout, for every id and every root header. BOUNDED (native): the savepoint bookkeeping of the real TransactionTracker - every registered savepoint holds exactly one pin on its transaction until it is deallocated, invalidation keeps the pins, oldest_savepoint_excluding / list_savepoints_after / any_*_savepoint_exists agree with the set of valid savepoints; the transaction-local SavepointTransactionState: a commit releases the pins of deleted savepoints and invalidates restored-over ones without touching their pins, an abort releases exactly the savepoints created in the transaction, both leave the local state empty.",
+    "not_decided": "steps 1 and 3 of restore_savepoint_inner (root restore, invalidation of younger savepoints: BTreeSet / iterator bodies), histories, crash; malformed-record error returns; the tracker and the unpersisted allocation records beyond the stated call-sequence bound",
 }
 P["C09"] = {
     "level": "proof",
